@@ -7,6 +7,8 @@
 //	J|JF <hex js source>  exotic case (JF = fresh runtimes: the case touches prototypes): the source defines mk() returning [value, replacer, space] and may push to LOG;
 //	                   native and oracle run in separate fresh runtimes, results and LOG compared
 //	                   -> same fields; result r = <res>|<hex of LOG.join(",")>
+//	V|VF <hex js source>  reviver case: mk() returns [text, reviver]; JSON.parse vs the InternalizeJSONProperty oracle,
+//	                   structural dump of the result (holes, descriptors) + LOG
 //	Q <hex>            JSON.stringify(string) -> "ok <hex>"
 //
 // X (only when N != O): which known deviation(s) reproduce N exactly when emulated in the oracle
@@ -20,6 +22,7 @@ import (
 	"math"
 	"math/big"
 	"reflect"
+	goruntime "runtime"
 	"strconv"
 	"strings"
 
@@ -504,6 +507,54 @@ func doJ(h string, fresh bool) string {
 	return doCase(mk, true, sum%2 == 0)
 }
 
+// JSON.parse(text, reviver): mk() returns [text, reviver]; native vs InternalizeJSONProperty oracle, result dump + LOG
+func doV(h string, fresh bool) string {
+	pooling = !fresh
+	defer func() { pooling = false }()
+	units, ok := unhex(h)
+	if !ok {
+		return "bad"
+	}
+	side := func(role, fname string) string {
+		r := getRT(role)
+		r.vm.Set("__src", jsString(r, units))
+		if _, err := r.vm.RunString(`(0,eval)(__src)`); err != nil {
+			return "mkerr"
+		}
+		r.vm.Set("__callee", r.c19.Get(fname))
+		v, err := r.vm.RunString(`(function(){ var a; try { a = mk(); } catch (e) { return "mkerr"; } return __c19.resv(function(){ return __callee(a[0], a[1]); }); })()`)
+		if err != nil {
+			return "reserr:" + common.OneLine(err.Error())
+		}
+		return v.String() + "|" + r.logHex()
+	}
+	return "N=" + side("native", "parse") + " O=" + side("oracle", "parseR") + " MJ=na"
+}
+
+// A <L>: JSON.stringify({a:1}, allowList) with allowList = ["a"] and allowList.length = L.  Reports how much memory the
+// process obtained from the OS during the call.  An allocation proportional to L means that L = 2^32-1 (a legal array
+// length) asks for 64 GiB at once, which the Go runtime answers with "fatal error: out of memory" — the host dies.
+func doA(arg string) string {
+	L, err := strconv.ParseInt(arg, 10, 64)
+	if err != nil || L < 0 || L > 1<<26 {
+		return "bad"
+	}
+	r := newRT()
+	if _, err := r.vm.RunString(fmt.Sprintf(`var __al = ["a"]; __al.length = %d; var __ov = {a:1};`, L)); err != nil {
+		return "mkerr"
+	}
+	goruntime.GC()
+	var m0, m1 goruntime.MemStats
+	goruntime.ReadMemStats(&m0)
+	v, err := r.vm.RunString(`__c19.native(__ov, __al)`)
+	goruntime.ReadMemStats(&m1)
+	res := "throw"
+	if err == nil {
+		res = v.String()
+	}
+	return fmt.Sprintf("sysdelta=%d perslot=%d res=%s", m1.Sys-m0.Sys, (m1.Sys-m0.Sys)/uint64(L+1), res)
+}
+
 func doQ(h string) string {
 	units, ok := unhex(h)
 	if !ok {
@@ -547,6 +598,16 @@ func main() {
 				return "bad"
 			}
 			return doJ(ws[1], false)
+		case "V", "VF":
+			if len(ws) != 2 {
+				return "bad"
+			}
+			return doV(ws[1], ws[0] == "VF")
+		case "A":
+			if len(ws) != 2 {
+				return "bad"
+			}
+			return doA(ws[1])
 		case "JF":
 			if len(ws) != 2 {
 				return "bad"
